@@ -13,7 +13,22 @@ pub struct C19;
 
 pub fn gen_c19_case(g: &mut G) -> Value {
     let cfg = if g.chance(2, 3) { gs::Cfg::faithful() } else { gs::Cfg::wide() };
-    let doc = gs::document(g, &cfg);
+    let mut doc = gs::document(g, &cfg);
+    // shapes whose trait surface is special-cased: unions of data-less alternatives under every
+    // tagging, string newtypes, and types holding a floating-point number
+    if g.chance(1, 3) {
+        doc["definitions"]["SurfaceExternalUnits"] = json!({"type": "string", "enum": ["north", "south", "east"]});
+        doc["definitions"]["SurfaceInternalUnits"] = json!({"oneOf": [
+            {"type": "object", "properties": {"kind": {"type": "string", "enum": ["start"]}}, "required": ["kind"]},
+            {"type": "object", "properties": {"kind": {"type": "string", "enum": ["stop"]}}, "required": ["kind"]}]});
+        doc["definitions"]["SurfaceAdjacentUnits"] = json!({"oneOf": [
+            {"type": "object", "properties": {"tag": {"type": "string", "enum": ["on"]}}, "required": ["tag"]},
+            {"type": "object", "properties": {"tag": {"type": "string", "enum": ["off"]}, "content": {"type": "integer"}}, "required": ["tag", "content"]}]});
+        doc["definitions"]["SurfacePlainString"] = json!({"type": "string"});
+        doc["definitions"]["SurfaceShortString"] = json!({"type": "string", "maxLength": 5});
+        doc["definitions"]["SurfaceWithFloat"] = json!({"type": "object", "properties": {"ratio": {"type": "number"}, "units": {"$ref": "#/definitions/SurfaceExternalUnits"}}, "required": ["ratio"]});
+        doc["definitions"]["SurfaceFloatEnum"] = json!({"oneOf": [{"type": "number"}, {"type": "string", "enum": ["auto"]}]});
+    }
     let settings = settings(g, &doc, true);
     let case = Case { settings, history: history(g, &doc), ..Default::default() };
     gen::to_value(&case)
@@ -53,7 +68,7 @@ impl Property for C19 {
         Some(gen_c19_case(g))
     }
     fn generate(&self, tier: Tier, seed: u64) -> Vec<Value> {
-        gen::draw(seed, "C19", tier.pick(350, 12000), gen_c19_case)
+        gen::draw(seed, "C19", tier.pick(600, 12000), gen_c19_case)
     }
     fn prepare(&self, case_v: &Value) -> Unit {
         let case = match parse_case(case_v) {
